@@ -29,6 +29,12 @@ func C16(r *core.Report) {
 	c16PrefixSums(r)
 	c16ReadAtEOF(r)
 	c16OnePiecePerBlock(r)
+	// the split callback appends the block to the children slice it is handed (family := append(children, *parent)): that is
+	// only safe because the accumulator gives each group a buffer it never touches again (same rule as C15.R2)
+	if run := r.Anchor("C16.R7", "accum.(*ObjectAccumulator).Run"); run != nil {
+		bufferOwnership(r, "C16.R7", run)
+	}
+	r.Floor("C16.R7", 2)
 	r.Floor("C16.R1", 5)
 	r.Floor("C16.R2", 4)
 	r.Floor("C16.R3", 2)
